@@ -566,6 +566,14 @@ def check(program, rep):
     from .. import namelink as _nl
     rep.guard("C17-R6", _nl.rule, program, rep, "C17-R6",
               sorted(program.modules))
+    # the minimiser's aliases argument (shared default dictionary) and the
+    # sets kept in it are not changed in place (C04-R4, run here too)
+    from . import C04 as _C04
+    rep.guard("C04-R4", _C04.r4_aliases_effects, program, rep)
+    # a context keeps a copy of the dictionary it is created with (C18-R1,
+    # run here too: controllers are built with shared default dictionaries)
+    from . import C18 as _C18
+    rep.guard("C18-R1", _C18.r1_context_owns, program, rep)
     return finish(rep, program, EXPLANATION, NOT_DECIDED,
                   trusted=["the transfer functions of effects.py (which "
                            "builtins copy / alias / mutate)",
